@@ -1,4 +1,5 @@
 import Qvnt.Props.C10
+import Qvnt.Props.Code.C11
 open Qvnt
 #print axioms C10_position_is_bit
 #print axioms C10_bits
@@ -20,3 +21,4 @@ open Qvnt
 #print axioms C10_macro_call_builtin
 #print axioms C10_macro_call_nested
 #print axioms C10_macro_call_bad_parameter
+#print axioms C11_code_refine
